@@ -24,6 +24,7 @@ type ident struct {
 }
 
 type matcher struct {
+	record  map[uintptr][]reflect.Value // when not nil: the wire order of the keys of every map
 	nameMap map[string]string
 	ords    map[int]ident
 	class   string // classifier of the first mismatch, if it is a known finding
@@ -243,6 +244,9 @@ func (m *matcher) match(h *hval, v reflect.Value) {
 				m.bad("map key %s is not a key of the map", truncS(h.items[i].String(), 60))
 			}
 			used[found] = true
+			if m.record != nil {
+				m.record[v.Pointer()] = append(m.record[v.Pointer()], keys[found])
+			}
 			m.match(h.items[i+1], v.MapIndex(keys[found]))
 		}
 	default:
@@ -310,6 +314,19 @@ func c02Case(c *ctx, val interface{}, label string, seed uint64, budget, maxLen 
 	if p, cls := denotes(h, val, nm); p != "" {
 		c.fail("output does not denote the value", in, p, cls)
 	}
+	encCorr(c, val, nm, bs, h)
+}
+
+// the encoder model on the same value, with the map orders the implementation used
+func encCorr(c *ctx, val interface{}, nm map[string]string, bs []byte, h *hval) {
+	if len(bs) > 30000 {
+		return
+	}
+	order, ok := recoverMapOrder(h, val, nm)
+	if !ok {
+		return // the output does not denote the value: already reported, no order to recover
+	}
+	c.corr("enc "+nameMapStr(nm)+" "+gvalString(val, order), "ok "+hx(bs))
 }
 
 func runC02(c *ctx) {
@@ -373,4 +390,5 @@ func c02Graph(c *ctx, val interface{}, seed uint64) {
 	if p, cls := denotes(h, val, nm); p != "" {
 		c.fail("graph output does not denote the value", in, p, cls)
 	}
+	encCorr(c, val, nm, bs, h)
 }
